@@ -276,7 +276,7 @@ func TestC10(t *testing.T) {
 	grid := func() {
 		for _, vi := range []int{1, 2, 3} {
 			g := metaGrid(vi, 20)
-			Enum(h, "meta", len(g), func(i int) MetaCase { return g[i] }, func(i int) bool { return checkMeta(g[i]) == nil }, checkMeta)
+			Enum(h, "meta", len(g), func(i int) MetaCase { return g[i] }, nil, checkMeta)
 			if !h.replaying() {
 				h.R.AddExact(int64(len(g)), int64(len(g)))
 				h.R.Count("grid v"+spec.Versions[vi].Name+" (metric x base value x modified value x other base value x 20 backgrounds)", int64(len(g)))
